@@ -95,7 +95,7 @@ CHECKS.update({
         technique="narrowing set of Sample.tla (only DrawLambda narrows, only coordinate 2E-2) checked by TLC; every to_f64 of the real generic code recorded by the tracking scalar and validated by Trace_Sample / Trace_Matrix",
         design_ref="DESIGN.md section 4, C19",
         text="Every to_f64 call made by sample::<Tr> (debug off) is an event; TLC rejects a narrowing whose argument depends on any user input other than coordinate 2E-2 (values built from table constants only are exempt). decompose_for_tropical::<Tr> must not narrow at all.",
-        note=TB + " Shows the dataflow; does not run a higher-precision type."),
+        note=TB + " Dataflow by the tracking scalar; values by the harness' double-double scalar (unit-tested against BigRational)."),
 })
 
 CHECKS.update({
@@ -124,6 +124,29 @@ CHECKS.update({
         text="D = 1..8, all public operations (+, -, * T, * &T, +=, dot, squared, constructors, accessors): the recorded term must be the specification's. Because the validated term is then evaluated on random/special f64 vectors and compared bit for bit with the f64 instantiation, the componentwise IEEE definition is decided for the real code. The scalar trait is a differential check against the standard library.",
         note=TB + " std f64 functions are the reference for the scalar trait."),
 })
+
+# additions made after the first full pass (DESIGN.md 11.2b): appended to the descriptions above
+DD = (" The relations that involve returned values are evaluated once more with a double-double user scalar (harness dd.rs, mt replay-dd) "
+      "at ~1e-27 x condition, with coordinates and masses that are not doubles.")
+HIST = (" Histories on one thread / in one process precede the calls: the same graph built for another D, use - drop - rebuild with the new "
+        "signature in the released heap block, a Gamma coordinate shared by consecutive samplers.")
+EXTRA = {
+    "C06": DD + " Edge selection in that type at the specification's rational boundaries +- 1e-24 (constants of the step stored exactly) and at 1 - 1e-25." + HIST,
+    "C07": DD + HIST, "C08": DD + HIST + " A third of the points run with matrix_stability_test down to 0.",
+    "C09": DD + HIST + " Masses on edges the graph does not flag massive; which masses and shifts of the call flow into v is bound by Trace_Sample (Sample!KinMasses).",
+    "C10": DD + HIST + " Masses on edges the graph does not flag massive (numeric and as a dependency in Trace_Sample).",
+    "C11": DD + HIST + " Kinematic dependencies of the jacobian bound by Trace_Sample.",
+    "C12": " The quantile is also called with double-double p in [0,1) whose f64 image is 1.0." + HIST,
+    "C13": DD + HIST,
+    "C15": " decompose_for_tropical::<double-double>: Qt^T Qt = L, both inverses, determinant against the exact rational determinant, at 1e-27 x condition.",
+    "C16": " Sample level: an Ok sample with the test on must satisfy the distance bound for the returned inverse and L. With the double-double scalar the tolerance boundary is decided by the low part of the distance.",
+    "C19": " Semantically: the double-double scalar must come back with double-double accuracy in every relation (a detour through f64 leaves 1e-17).",
+    "C03": " Liveness: Build.FairSpec |= Termination.", "C04": " Liveness: Build.FairSpec |= Termination.", "C05": " Liveness: Build.FairSpec |= Termination.",
+    "C14": " Liveness: MC_Sample.MCFair |= Termination. Semantic perturbation test of every coordinate.",
+    "C17": " A second validation pass without the query events judges the sample results when determinism queries were rejected first.",
+}
+for _k, _v in EXTRA.items():
+    CHECKS[_k]["text"] = CHECKS[_k]["text"] + _v
 
 NOT_APPLICABLE = {
     "C01": "integral identity over a continuum (mean over the hypercube = Feynman integral): a finite-state TLA+ model cannot integrate; its finite premises (C04, C06-C14) are decided separately (DESIGN.md section 6)",
